@@ -10,15 +10,22 @@ def getOpt (j : Json) : R (Option Fl) :=
   | Json.null => pure none
   | _ => do pure (some (← getFl j))
 
-/-- {"name", "args"} ↦ true iff the parameters lie inside the documented domain -/
+/-- {"name", "args" [, "strs"]} ↦ true iff the parameters lie inside the documented domain -/
 def opDomain : Op := fun j => do
   let name ← fStr j "name"
   let args ← getList getOpt (← field j "args")
+  let strs ← match fieldOpt j "strs" with
+    | some v => getList getStr v
+    | none => pure []
   match SV.Spec.Guards.domains.lookup name with
-  | none => throw s!"no documented domain {name}"
   | some f => match f args with
     | some b => pure (outBool b)
     | none => throw s!"arguments outside the oracle's scope for {name}"
+  | none => match SV.Spec.Guards.domainsS.lookup name with   -- domains with an enumerated (string) parameter
+    | none => throw s!"no documented domain {name}"
+    | some f => match f strs args with
+      | some b => pure (outBool b)
+      | none => throw s!"arguments outside the oracle's scope for {name}"
 
 def ops : OpTable := [("c20.domain", opDomain)]
 end SV.Driver.C20Spec
